@@ -28,13 +28,6 @@ impl Stats {
     pub fn add(&mut self, k: &str, n: u64) {
         *self.c.entry(k.to_string()).or_default() += n;
     }
-    pub fn merge(&mut self, o: &Stats) {
-        for (k, v) in &o.c {
-            *self.c.entry(k.clone()).or_default() += v;
-        }
-        self.max_objects = self.max_objects.max(o.max_objects);
-        self.mutations_ok += o.mutations_ok;
-    }
 }
 
 /// Compare two sweeps; describe the first difference.
